@@ -130,7 +130,7 @@ def json_serialize_values_orders(values_orders: dict[str, GroupedList]) -> str:
     json_serialized_values_orders = {
         feature: {
             "order": convert_values_to_base_types(order),
-            "content": convert_values_to_base_types(order.content),
+            "content": convert_values_to_base_types({key: order.get(key) for key in order}),
         }
         for feature, order in values_orders.items()
     }
